@@ -46,9 +46,14 @@ PROGRAMS = {
     "forced-const-view": ("v = mg.reshape(a, (2,), constant=True)\nr = a * b + c", {"v": lambda ca, cb, cc: True, "r": lambda ca, cb, cc: ca and cb and cc}),
     "forced-var-view": ("v = mg.reshape(a, (2,), constant=False)\nr = v * b + c", {"v": lambda ca, cb, cc: False, "r": lambda ca, cb, cc: False}),
     "forced-var-view-transpose": ("v = mg.transpose(a, constant=False)\nr = (v * v).sum() + b.sum() * c", {"v": lambda ca, cb, cc: False, "r": lambda ca, cb, cc: False}),
+    "inplace-through-forced-var-view": ("v = mg.reshape(a, (2,), constant=False)\nv[...] = b\nr = v * c", {"v": lambda ca, cb, cc: False, "r": lambda ca, cb, cc: False}),
+    "inplace-through-forced-const-view": ("v = mg.reshape(a, (2,), constant=True)\nv[...] = b\nr = b * c", {"v": lambda ca, cb, cc: True, "r": lambda ca, cb, cc: cb and cc}),
+    "iop-through-forced-var-view": ("v = mg.transpose(a, constant=False)\nv[...] = b * b\nr = v * c", {"v": lambda ca, cb, cc: False, "r": lambda ca, cb, cc: False}),
     "clip-none-none-forced": ("m = mg.clip(a, None, None, constant=True)\nr = m * b + c", {"m": lambda ca, cb, cc: True, "r": lambda ca, cb, cc: cb and cc}),
     "clip-none-none": ("m = mg.clip(a, None, None)\nr = m * b + c", {"m": lambda ca, cb, cc: ca, "r": lambda ca, cb, cc: ca and cb and cc}),
 }
+# programs in which a leaf is written to through a view whose flag was forced: every leaf must end with the flag it started with
+KEEP_LEAF_FLAGS = {"inplace-through-forced-var-view", "inplace-through-forced-const-view", "iop-through-forced-var-view"}
 # non-constant intermediates through which r is computed: they must hold a gradient after r.backward()
 ON_PATH = {"forced-var-view": ["v"], "forced-var-view-transpose": ["v"]}
 # leaves whose gradient is blocked because the only path to r runs through a tensor that is constant (forced, or an
@@ -260,11 +265,16 @@ def run_prog(spec, tier, mg):
             T[n] = t
         env = {"mg": mg, "np": np, "M": M}
         env.update(T)
+        pre_flags = {n: bool(t._constant) for n, t in T.items()} if spec["prog"] in KEEP_LEAF_FLAGS else None
         exec(body_src, env)
         r = env["r"]
         # read the flags (forks if the library has not yet decided them)
         for n, t in T.items():
             flags[n] = bool(t._constant)
+        if pre_flags is not None:
+            changed = [n for n in T if bool(T[n].constant) != pre_flags[n]]
+            flags = pre_flags
+            env["__changed__"] = changed
         named = {n: env[n].constant for n in expected}
         rt = terms_of(r.data)
         r.backward()
@@ -286,6 +296,8 @@ def run_prog(spec, tier, mg):
             twin["__r__"] = terms_of(r2.data if isinstance(r2, mg.Tensor) else r2)
         except Exception as e:  # the twin is not expressible with bare arrays for this flag assignment
             twin = ("n/a", "%s: %s" % (type(e).__name__, e))
+        if env.get("__changed__"):
+            copy_grads["__flag_changed__:" + ",".join(env["__changed__"])] = True
         return A, flags, named, rt, grads, inter_grads, twin, copy_grads
 
     for p in engine.explore(body, max_paths=64, max_seconds=120):
@@ -310,7 +322,9 @@ def run_prog(spec, tier, mg):
             if not named[n] and inter_grads.get(n) is None:
                 findings.append("%s: non-constant tensor %s lies on the path to r but has no gradient" % (tag, n))
         for n, cg in copy_grads.items():
-            if cg:
+            if n.startswith("__flag_changed__:"):
+                findings.append("%s: the constant flag of leaf %s changed during the program" % (tag, n.split(":", 1)[1]))
+            elif cg:
                 findings.append("%s: %s.copy(constant=True) carries a gradient" % (tag, n))
         # reference derivative treating constants as constants
         L = diff.weighted_sum(rt, [tm.const(1)] * len(rt))
@@ -318,7 +332,8 @@ def run_prog(spec, tier, mg):
         for n in blocked:
             if grads[n] is not None:
                 findings.append("%s: %s has a gradient although its only path to r runs through a constant tensor" % (tag, n))
-        leaves = [(n, A[n], grads[n]) for n in A if not flags[n] and n not in blocked]
+        mutated = {"a"} if spec["prog"] in KEEP_LEAF_FLAGS else set()  # the leaf written to through the view: its .grad refers to its new value (C05)
+        leaves = [(n, A[n], grads[n]) for n in A if not flags[n] and n not in blocked and n not in mutated]
         r_const = bool(expected["r"](ca, cb, cc))
         if leaves and not r_const:
             rr = vjp.check_grads(p, L, leaves, timeout_ms=10000)
@@ -331,9 +346,9 @@ def run_prog(spec, tier, mg):
                 res["status"] = common.INCONCLUSIVE
         elif r_const:
             for n in A:
-                if grads[n] is not None:
+                if grads[n] is not None and n not in mutated:
                     findings.append("%s: result is constant but %s has a gradient" % (tag, n))
-        if isinstance(twin, dict):
+        if isinstance(twin, dict) and spec["prog"] not in KEEP_LEAF_FLAGS:  # (a bare array is not written through by a tracked in-place update)
             prob = query.Problem(list(p.pc) + list(p.dom))
             pairs = list(zip(rt, twin["__r__"])) if len(rt) == len(twin["__r__"]) else None
             if pairs is None:
@@ -359,6 +374,19 @@ def run_prog(spec, tier, mg):
             res["twin_not_expressible"] = res.get("twin_not_expressible", 0) + 1
     copy_findings = [f for f in findings if "copy(constant=True) carries a gradient" in f]
     findings = [f for f in findings if f not in copy_findings]
+    dropped = [f for f in findings if spec["prog"] in KEEP_LEAF_FLAGS and "flags a=True b=False" in f and "gradient of b differs" in f]
+    findings = [f for f in findings if f not in dropped]
+    if dropped:
+        sig = "inplace-through-var-view-of-const-base:written-value-gradient-dropped"
+        known = common.match_known(common.load_known(PROP), sig)
+        rp = _replay(spec, body_src)
+        if rp:
+            if known is None:
+                res["status"] = common.VIOLATION
+            res["violations"].append({"signature": sig, "replay": rp, "summary": "program `%s`: %s" % (body_src.replace("\n", "; "), dropped[0])})
+        else:
+            res["status"] = common.INCONCLUSIVE
+            res["notes"].append("did not reproduce: %s" % dropped[:1])
     if copy_findings:
         sig = "copy-constant-true-carries-grad"
         known = common.match_known(common.load_known(PROP), sig)
@@ -400,11 +428,14 @@ def _replay(spec, body_src):
         "forced-const-view": "{'v': True, 'r': ca and cb and cc}", "forced-var-view": "{'v': False, 'r': False}",
         "forced-var-view-transpose": "{'v': False, 'r': False}", "clip-none-none-forced": "{'m': True, 'r': cb and cc}",
         "clip-none-none": "{'m': ca, 'r': ca and cb and cc}",
+        "inplace-through-forced-var-view": "{'v': False, 'r': False}", "inplace-through-forced-const-view": "{'v': True, 'r': cb and cc}",
+        "iop-through-forced-var-view": "{'v': False, 'r': False}",
     }[spec["prog"]]
     src = '''import sys, itertools
 import numpy as np
 import mygrad as mg
 BODY = %r
+KEEP = %r
 ON_PATH = %r
 M = np.array([True, False])
 A = {"a": np.array([1.5, -0.5]), "b": np.array([0.75, 2.0]), "c": np.array(1.25)}
@@ -419,7 +450,9 @@ for ca, cb, cc in itertools.product([False, True], repeat=3):
         for n, e in exp.items():
             if env[n].constant != bool(e): bad.append((fl, n, "constant", env[n].constant))
         r.backward()
+        if KEEP and fl["a"] and not fl["b"] and not env["v"].constant and T["b"].grad is None: bad.append((fl, "b", "the value written through the non-constant view received no gradient"))
         for n in A:
+            if T[n].constant != fl[n]: bad.append((fl, n, "leaf flag changed"))
             if fl[n] and T[n].grad is not None: bad.append((fl, n, "constant leaf has grad"))
         for n in exp:
             if n != "r" and env[n].constant and env[n].grad is not None: bad.append((fl, n, "constant tensor has grad"))
@@ -440,7 +473,7 @@ for ca, cb, cc in itertools.product([False, True], repeat=3):
         bad.append((fl, "raised", type(e).__name__, str(e)[:200]))
 print(bad)
 print('REPRODUCED' if bad else 'NOT-REPRODUCED'); sys.exit(1 if bad else 0)
-''' % (body_src, ON_PATH.get(spec["prog"], []), exp_src)
+''' % (body_src, spec["prog"] in KEEP_LEAF_FLAGS, ON_PATH.get(spec["prog"], []), exp_src)
     path = common.write_replay(PROP, gradcase._safe(spec["name"]), src)
     ok, out = common.run_replay(path)
     return path if ok else None
